@@ -676,7 +676,7 @@ impl World {
     pub fn trace_hash(&self) -> u64 {
         let mut h = 0xcbf29ce484222325u64;
         for o in &self.sh.borrow().log {
-            pvcore::explore::fnv(&mut h, o.brief().as_bytes());
+            pvcore::explore::fnv(&mut h, format!("{:?}", o).as_bytes());
             pvcore::explore::fnv(&mut h, b"\n");
         }
         h
